@@ -33,3 +33,17 @@ verus! {
 pub assume_specification[ crate::mpc::data_types::Auth::macs ](a: &crate::mpc::data_types::Auth) -> (r: Vec<crate::mpc::data_types::Mac>)
     ensures r.len() == a.0.len(), forall|k: int| 0 <= k < r.len() ==> r@[k] == a.0@[k].0;
 } // verus!
+
+verus! {
+/// F3 helper: phase-label concatenation
+#[verifier::external_body]
+pub fn pv_concat(a: &str, b: &str) -> (r: String) { a.to_owned() + b }
+
+/// F3 helper for broadcast_first_scatter_second: project a Vec<Vec<(T, S)>> to its first components
+#[verifier::external_body]
+pub fn pv_firsts<T: Clone, S>(v: &Vec<Vec<(T, S)>>) -> (r: Vec<Vec<T>>)
+    ensures r.len() == v.len(), forall|k: int| 0 <= k < r.len() ==> (#[trigger] r@[k]).len() == v@[k].len(),
+{
+    v.iter().map(|inner_vec| inner_vec.iter().map(|(a, _)| a.clone()).collect()).collect()
+}
+} // verus!
